@@ -33,6 +33,7 @@ pub(crate) mod bytes_real {
     pub(crate) fn v_size(vm: &mut VM, a: &[Value]) -> Result<Value, RuntimeError> { native_size(vm, a) }
     pub(crate) fn v_free(vm: &mut VM, a: &[Value]) -> Result<Value, RuntimeError> { native_free(vm, a) }
     // second part (c09_bytes2.rs)
+    pub(crate) fn v_resize(vm: &mut VM, a: &[Value]) -> Result<Value, RuntimeError> { native_resize(vm, a) }
     pub(crate) fn v_clone(vm: &mut VM, a: &[Value]) -> Result<Value, RuntimeError> { native_clone(vm, a) }
     pub(crate) fn v_read_u64(vm: &mut VM, a: &[Value]) -> Result<Value, RuntimeError> { native_read_u64(vm, a) }
     pub(crate) fn v_write_u64(vm: &mut VM, a: &[Value]) -> Result<Value, RuntimeError> { native_write_u64(vm, a) }
